@@ -72,7 +72,7 @@ func (g *Gen) stmt(o *out, sc *Scope, depth int) {
 		g.stat("y")
 		o.line("y(%d)", g.yk)
 	}
-	k := g.n(30)
+	k := g.n(32)
 	if depth <= 0 && k >= 8 && k <= 17 {
 		k = g.n(8)
 	}
@@ -142,6 +142,10 @@ func (g *Gen) stmt(o *out, sc *Scope, depth int) {
 		g.methodStmt(o, sc)
 	case 24:
 		g.tupleStmt(o, sc)
+	case 25:
+		g.tupleIndexStmt(o, sc)
+	case 26:
+		g.redeclareStmt(o, sc)
 	default:
 		g.assign(o, sc)
 	}
@@ -369,6 +373,14 @@ func (g *Gen) forStmt(o *out, sc *Scope, depth int) {
 		label = fmt.Sprintf("L%d", g.nlab)
 		if g.n(3) == 0 {
 			label = []string{"function", "typeof", "yield", "await", "let", "class", "delete"}[g.n(7)] + fmt.Sprint(g.nlab)
+		}
+		if g.n(6) == 0 && !g.usedLabelS[sc.Fn] {
+			// the very label the resumable form of a function uses itself
+			if g.usedLabelS == nil {
+				g.usedLabelS = map[*FuncCtx]bool{}
+			}
+			g.usedLabelS[sc.Fn] = true
+			label = "s"
 		}
 	}
 	form := g.n(4)
@@ -874,4 +886,39 @@ func canonName(n string) string {
 		}
 		return "uint32"
 	})
+}
+
+// tupleIndexStmt: the index operand on the left of a tuple assignment is evaluated before any
+// of the assignments happens (i, a[i] = 1, x assigns to a[old i]).
+func (g *Gen) tupleIndexStmt(o *out, sc *Scope) {
+	t := g.scalarOf(KInt)
+	iv, sv := g.newName(sc), g.newName(sc)
+	o.line("%s := []%s{%s, %s, %s}", sv, t.Name, g.expr(t, sc, 1), g.expr(t, sc, 1), g.expr(t, sc, 1))
+	o.line("%s := I(0)", iv)
+	switch g.n(3) {
+	case 0:
+		o.line("%s, %s[%s] = 2, %s", iv, sv, iv, g.expr(t, sc, 1))
+	case 1:
+		o.line("%s[%s], %s = %s, 1", sv, iv, iv, g.expr(t, sc, 1))
+	default:
+		o.line("%s, %s[%s], %s[%s+1] = 1, %s[%s+1], %s[%s]", iv, sv, iv, sv, iv, sv, iv, sv, iv)
+	}
+	o.line("emit(\"ti\", itoa(int(%s))+%s+%s+%s)", iv, g.showOf(t, sv+"[0]"), g.showOf(t, sv+"[1]"), g.showOf(t, sv+"[2]"))
+	g.stat("tuple-index")
+}
+
+// redeclareStmt: a := statement that redeclares an existing array/struct variable assigns to
+// it (pointers taken before still see the variable).
+func (g *Gen) redeclareStmt(o *out, sc *Scope) {
+	t := g.U.pick(func(x *Type) bool { return x.Kind == KStruct || x.Kind == KArray })
+	if t.Kind != KStruct && t.Kind != KArray {
+		g.assign(o, sc)
+		return
+	}
+	a, p, nb := g.newName(sc), g.newName(sc), g.newName(sc)
+	o.line("%s := %s", a, g.composite(t, sc, 1))
+	o.line("%s := &%s", p, a)
+	o.line("%s, %s := %s, %s", a, nb, g.composite(t, sc, 1), g.expr(g.U.TI, sc, 1))
+	o.line("emit(\"rd\", %s+\"|\"+%s+\"|\"+itoa(int(%s))+btoa(%s == &%s))", g.showOf(t, "*"+p), g.showOf(t, a), nb, p, a)
+	g.stat("redeclare")
 }
